@@ -109,6 +109,28 @@ fn main() {
             };
             replayed.push((k, still));
         }
+        // early verdict: a recorded violation is reported even if the workload never finishes
+        {
+            let ctx_w = ctx.clone();
+            let known_sigs: Vec<String> = replayed.iter().map(|(k, _)| k.signature.clone()).collect();
+            let grace = if ctx.tier == report::Tier::Quick { 240.0 } else { 1200.0 };
+            std::thread::spawn(move || loop {
+                std::thread::sleep(std::time::Duration::from_secs(2));
+                let (viol, since) = report::early_state();
+                let unlisted: Vec<report::Violation> = viol.into_iter().filter(|v| !known_sigs.contains(&v.signature)).collect();
+                if !unlisted.is_empty() && since > grace {
+                    let mut st = Stats::new();
+                    st.evals = 1;
+                    for v in unlisted {
+                        st.viol_counts.insert(v.signature.clone(), 1);
+                        st.violations.push(v);
+                    }
+                    let spec = report::Spec { rule: format!("STOPPED EARLY: a violation had been observed and the remaining workload did not finish within {} s of it (a broken engine can make later cases arbitrarily slow); counts below cover only the recorded violations", grace), assumptions: vec![], floors: vec![] };
+                    let code = report::finish(&ctx_w, st, spec, &[]);
+                    std::process::exit(code);
+                }
+            });
+        }
         let ctx2 = ctx.clone();
         let (mut st, spec) = util::on_big_stack(move || (p.run)(&ctx2));
         // shorten the witnesses of (a few) text-based violations; the verdict is already decided
